@@ -116,6 +116,12 @@ int read_amiga(const char *filename, Memory *memory)
   {
     uint32_t hunk_type = read_int32(in);
 
+    if (feof(in))
+    {
+      fclose(in);
+      return -1;
+    }
+
     long marker = ftell(in);
 
     if (table_offset != 0)
@@ -135,7 +141,7 @@ int read_amiga(const char *filename, Memory *memory)
         running = 0;
         break;
       default:
-        if (length == 0)
+        if (length <= 0)
         {
           fclose(in);
           return -1;
